@@ -13,6 +13,7 @@ import sys
 import time
 import traceback
 from concurrent.futures import ProcessPoolExecutor
+from concurrent.futures.process import BrokenProcessPool
 import multiprocessing
 
 from . import boot
@@ -241,6 +242,83 @@ def _worker(args):
   return out
 
 
+def _blank_result(run_index, harness_error=None):
+  return {"run_index": run_index, "harness_error": harness_error, "violation": None, "counters": {},
+          "shapes": [], "nontrivial": 0, "wall": 0, "n_events": 0, "events": None, "seed": None,
+          "cfg": None}
+
+
+def _isolated_run(profile, verif_seed, i, tier, time_limit):
+  """Run i in a fresh interpreter that logs each event before executing it. If that process dies,
+  the logged events are the replay of the crash."""
+  import subprocess, tempfile
+  fd, path = tempfile.mkstemp(prefix="gsim-isolated-", suffix=".jsonl")
+  os.close(fd)
+  try:
+    cmd = [sys.executable, os.path.join(boot.VERIF_DIR, "bin", "check"), "--isolated-run",
+           "%s:%s:%s:%s:%s" % (profile.name, verif_seed, i, tier, time_limit), "--events-out", path]
+    try:
+      p = subprocess.run(cmd, capture_output=True, text=True, timeout=time_limit * 12 + 120)
+      rc, out = p.returncode, p.stdout
+    except subprocess.TimeoutExpired:
+      rc, out = -9, ""
+    for line in out.splitlines():
+      if line.startswith("ISOLATED-RESULT "):
+        return json.loads(line[len("ISOLATED-RESULT "):])
+    events, cfg = [], None
+    with open(path) as f:
+      for line in f:
+        rec = json.loads(line)
+        if "cfg" in rec:
+          cfg = rec["cfg"]
+        else:
+          events.append(rec)
+    d = _blank_result(i)
+    d.update({"seed": run_seed(verif_seed, profile.name, i), "cfg": cfg, "events": events,
+              "n_events": len(events)})
+    what = "the engine process died (exit status %s) while executing the last event" % rc
+    if profile.sandbox_death_is_violation or profile.cpu_timeout_is_violation:
+      d["violation"] = {"prop": profile.prop, "oracle": "engine-process-died", "detail": what,
+                        "event_index": len(events) - 1}
+    else:
+      d["harness_error"] = what
+    return d
+  finally:
+    try:
+      os.unlink(path)
+    except OSError:
+      pass
+
+
+def isolated_main(spec, events_out):
+  """Child side of _isolated_run."""
+  name, verif_seed, i, tier, time_limit = spec.split(":")
+  from .profiles import get_profile
+  profile = get_profile(name)
+  i = int(i)
+  out = open(events_out, "w")
+  orig_step = profile.step
+  state = {"cfg_written": False}
+  def logging_step(sim, ev, st):
+    if not state["cfg_written"]:
+      out.write(json.dumps({"cfg": getattr(sim, "cfg", None) or st.get("cfg") if isinstance(st, dict) else None},
+                           default=repr) + "\n")
+      state["cfg_written"] = True
+    out.write(json.dumps(ev, default=repr) + "\n")
+    out.flush()
+    return orig_step(sim, ev, st)
+  profile.step = logging_step
+  r = execute(profile, seed=run_seed(int(verif_seed), profile.name, i), tier=tier,
+              time_limit=int(float(time_limit)), run_index=i)
+  r.run_index = i
+  d = r.to_dict()
+  d["n_events"] = len(d["events"] or [])
+  if r.violation is None and r.harness_error is None:
+    d["events"] = None
+  print("ISOLATED-RESULT " + json.dumps(d, default=repr))
+  return 0
+
+
 def run_batch(profile, verif_seed, n_runs, tier, workers=None, wall_budget=None, time_limit=120,
               start_index=0, progress=None):
   """Run n_runs runs (indices start_index..) over forked workers. Stops submitting new chunks when
@@ -252,32 +330,52 @@ def run_batch(profile, verif_seed, n_runs, tier, workers=None, wall_budget=None,
             for i in range(start_index, start_index + n_runs, chunk)]
   results = []
   ctx = multiprocessing.get_context("fork")
-  pending = []
-  with ProcessPoolExecutor(max_workers=workers, mp_context=ctx) as ex:
-    it = iter(chunks)
-    done_submitting = False
+  it = iter(chunks)
+  state = {"done": False}
+  lost = []          # run indices whose worker process died under them
+  def run_pool():
+    """One process pool until the chunks run out or a worker dies. Returns True when finished."""
     inflight = []
-    def submit_more():
-      nonlocal done_submitting
-      while len(inflight) < workers * 2 and not done_submitting:
-        if wall_budget is not None and time.time() - t0 > wall_budget:
-          done_submitting = True
-          break
-        try:
-          idxs = next(it)
-        except StopIteration:
-          done_submitting = True
-          break
-        inflight.append(ex.submit(_worker, (profile.name, verif_seed, idxs, tier, time_limit)))
-    submit_more()
-    while inflight:
-      fut = inflight.pop(0)
+    with ProcessPoolExecutor(max_workers=workers, mp_context=ctx) as ex:
+      def submit_more():
+        while len(inflight) < workers * 2 and not state["done"]:
+          if wall_budget is not None and time.time() - t0 > wall_budget:
+            state["done"] = True
+            break
+          try:
+            idxs = next(it)
+          except StopIteration:
+            state["done"] = True
+            break
+          inflight.append((idxs, ex.submit(_worker, (profile.name, verif_seed, idxs, tier, time_limit))))
       try:
-        results.extend(fut.result(timeout=time_limit * 12 + 60))
-      except Exception as e:     # pylint: disable=broad-except
-        results.append({"run_index": -1, "harness_error": "worker failed: %r" % (e,),
-                        "violation": None, "counters": {}, "shapes": [], "nontrivial": 0,
-                        "wall": 0, "n_events": 0, "events": None, "seed": None, "cfg": None})
-      submit_more()
+        submit_more()
+        while inflight:
+          idxs, fut = inflight.pop(0)
+          try:
+            results.extend(fut.result(timeout=time_limit * 12 + 60))
+          except BrokenProcessPool:
+            lost.extend(idxs)
+            for idxs2, _f in inflight:
+              lost.extend(idxs2)
+            return False
+          except Exception as e:     # pylint: disable=broad-except
+            results.append(_blank_result(-1, "worker failed: %r" % (e,)))
+          submit_more()
+      except BrokenProcessPool:
+        for idxs2, _f in inflight:
+          lost.extend(idxs2)
+        return False
+    return True
+  pools = 0
+  while not run_pool() and pools < 2:
+    pools += 1
+  # A dead worker (segmentation fault, out of memory) takes its pool along. Runs that were in
+  # flight are repeated one by one, each in a process of its own, which also finds the culprit.
+  lost = sorted(set(lost))[:48]      # (the culprit is among the first in flight; bound the cost)
+  if lost:
+    from concurrent.futures import ThreadPoolExecutor
+    with ThreadPoolExecutor(max_workers=max(2, workers // 2)) as tp:
+      results.extend(tp.map(lambda i: _isolated_run(profile, verif_seed, i, tier, time_limit), lost))
   results.sort(key=lambda d: d["run_index"])
   return results, len(chunks) * chunk
